@@ -589,3 +589,33 @@ Example C05_tr_term_push_oob :
   CLite.callf GenCFuncs.cprog 10 1 GenCFuncs.F_term_push [CLite.VPtr G 0%Z; CLite.VInt 3%Z]
     (CLiteProps.upd GenCFuncs.cglobals GenCFuncs.G_ibuf_cnt [CLite.VInt (IBUFSZ + 1)%Z] ++ [map CLite.VInt [97; 98; 99]%Z]) = CLite.Err CLite.EOob.
 Proof. cbv zeta. split; vm_compute; reflexivity. Qed.
+
+(* ======================================================================================== *)
+(* (10) ex.c ex_region / ex_lineno on the TRANSLATED C text (TrExAddr.v): the C text of C05_region_reads_safe and
+   C05_lineno_stays_inside.  For every NUL-free address string s without '/' and '?' (ex_search is not translated; the
+   body lemmas of TrExAddr.v hold for any search oracle that stays inside the string), any buffer length, current line and
+   mark table inside int: CapDefs.ex_region returns a value (no OobRd: the model reads no byte behind the terminator), and
+   when the numbers computed on the way fit into int (TrExAddr.region_fit: atoi(..), n += atoi(..), ex_lineno(..) + 1, ...)
+   the translated ex_region returns Ok -- in CLite every load and store is checked, so every load of the address string was
+   inside s and its terminator, and *beg, *end, xrow and the function's own two blocks are all it stored into -- with the
+   model's answer.  A number outside int (`2147483648`, `2147483647+1`) is undefined behaviour of the C text (atoi / signed
+   overflow; EOverflow in CLite, see C06_tr_addr_nonvacuous): not a read or write outside a buffer. *)
+From NV Require TrLbufBase TrLbufMarks TrExAddr.
+Theorem C05_tr_ex_region_reads_safe : forall m bs bb be bl s xrow len gbufs lblk vb0 e0 search d fuel,
+  CLiteProps.str_at m bs s -> nonul s -> CLiteProps.cell_at m GenCFuncs.G_xrow xrow ->
+  nth_error m bb = Some [vb0] -> nth_error m be = Some [CLite.VInt e0] ->
+  nth_error m GenCFuncs.G_bufs = Some gbufs -> nth_error gbufs TrExAddr.BUFS_LB = Some (CLite.VPtr bl 0%Z) ->
+  nth_error m bl = Some lblk -> nth_error lblk TrLbufBase.L_ln_n = Some (CLite.VInt len) -> TrLbufMarks.marks_ints lblk ->
+  nth_error m GenCFuncs.G_lit_25_1 = Some GenCFuncs.gb_lit_25_1 -> TrExAddr.rdist bs bb be bl ->
+  TrExAddr.int_ok xrow -> TrExAddr.int_ok len -> TrExAddr.int_ok e0 -> (2 * Z.of_nat (S (length s)) <= 2147483647)%Z ->
+  TrExAddr.nosearch s -> (2 * S (length s) <= fuel)%nat ->
+  exists reg xr, ex_region len (ex_lineno len (TrExAddr.mark_of lblk) search) s xrow = Ok (reg, xr) /\
+    (TrExAddr.region_fit len (TrExAddr.mark_of lblk) search s xrow ->
+     exists m', CLite.callf GenCFuncs.cprog fuel (S (S (S (S d)))) GenCFuncs.F_ex_region [CLite.VPtr bs 0%Z; CLite.VPtr bb 0%Z; CLite.VPtr be 0%Z] m
+                = CLite.Ok (CLite.VInt (match reg with RFail => 1 | ROk _ _ => 0 end)%Z, m') /\
+       match reg with
+       | ROk b e => nth_error m' bb = Some [CLite.VInt b] /\ nth_error m' be = Some [CLite.VInt e]
+       | RFail => True
+       end /\ CLiteProps.cell_at m' GenCFuncs.G_xrow xr).
+Proof. exact TrExAddr.tr_ex_region_safe. Qed.
+Print Assumptions C05_tr_ex_region_reads_safe.
